@@ -166,6 +166,17 @@ func memAnyOp(o *h.Out, rc *h.Rng, ans func(string)) {
 	to[19] = 2
 	ops := []string{"MLOAD", "MSTORE", "MSTORE8", "SHA3", "CALLDATACOPY", "CODECOPY", "RETURNDATACOPY", "EXTCODECOPY", "MCOPY", "LOG0", "LOG2", "CREATE", "CREATE2", "CALL", "CALLCODE", "DELEGATECALL", "STATICCALL", "RETURN", "REVERT", "ETX"}
 	name := ops[rc.Intn(len(ops))]
+	if rc.Chance(15) {
+		// an empty range far away: nothing has to be paid for it, and nothing may be touched for it either
+		switch name {
+		case "SHA3", "LOG0", "LOG2", "CREATE", "CREATE2", "CALL", "CALLCODE", "DELEGATECALL", "STATICCALL", "RETURN", "REVERT", "CALLDATACOPY", "CODECOPY", "EXTCODECOPY":
+			size = new(big.Int)
+			off = []*big.Int{new(big.Int).Lsh(big.NewInt(1), 63), new(big.Int).Add(new(big.Int).Lsh(big.NewInt(1), 63), big.NewInt(int64(rc.Intn(1000)))),
+				new(big.Int).SetUint64(^uint64(0)), new(big.Int).Lsh(big.NewInt(1), 255), new(big.Int).Sub(new(big.Int).Lsh(big.NewInt(1), 256), big.NewInt(1)),
+				new(big.Int).Add(new(big.Int).Lsh(big.NewInt(1), 64), new(big.Int).Lsh(big.NewInt(1), 63))}[rc.Intn(6)]
+			o.Count("memop:empty-range-far-away")
+		}
+	}
 	switch name {
 	case "MLOAD":
 		a.push(off).op(vm.MLOAD)
